@@ -205,7 +205,34 @@ def add_status_shard():
     statuses.add_status(0x3100, 'Pending', 'general range', end=0x3101)
     statuses.add_status(0x3100, 'Cancel', 'specific wins', command=find)
     statuses.add_status(0x3200, 'Warning', 'single')
+    # a type name that was computed (read from a configuration file, capitalised ...), not a literal
+    statuses.add_status(0x3300, ''.join(['Can', 'cel']), 'computed type name', command=find)
+    statuses.add_status(0x3301, 'warning'.capitalize(), 'computed type name')
+    # another thread (an association's thread) looked the codes up before the registration and
+    # looks them up again afterwards
+    import threading
+    go, done, seen = threading.Event(), threading.Event(), {}
+
+    def other_thread():
+        seen['before'] = [statuses.Status(c, cmd).status_type for c, cmd in ((0x3400, find), (0x3401, None))]
+        done.set()
+        go.wait(20)
+        # (most recently looked-up code first)
+        seen['after'] = [statuses.Status(c, cmd).status_type for c, cmd in ((0x3401, None), (0x3400, find))][::-1]
+    th = threading.Thread(target=other_thread, daemon=True)
+    th.start()
+    done.wait(20)
+    statuses.add_status(0x3400, 'Cancel', 'registered by the main thread', command=find)
+    statuses.add_status(0x3401, 'Pending', 'registered by the main thread')
+    go.set()
+    th.join(20)
+    res.count('oracle.add-status')
+    if seen.get('before') != ['Failure', 'Failure'] or seen.get('after') != ['Cancel', 'Pending']:
+        res.violation('registration-not-seen-by-other-thread', 'C18.add-status',
+                      'a thread that had looked 0x3400/0x3401 up before they were registered sees %r '
+                      'afterwards (before: %r)' % (seen.get('after'), seen.get('before')), case)
     probes = [
+        (0x3300, find, 'Cancel'), (0x3301, None, 'Warning'), (0x3301, store, 'Warning'),
         (0x2FFF, store, 'Failure'), (0x3000, store, 'Warning'), (0x3008, store, 'Warning'),
         (0x3010, store, 'Warning'), (0x3011, store, 'Failure'), (0x3000, find, 'Failure'),
         (0x3010, None, 'Failure'), (0x3100, None, 'Pending'), (0x3101, None, 'Pending'),
